@@ -2,7 +2,7 @@
    derivation is answered with the scope registered by another identity, so
    its metrics are delivered under that scope's name and tags. *)
 From Coq Require Import ZArith List Bool.
-From Tally Require Import Base.Obs Model.KeyGen Model.Deriv.
+From Tally Require Import Base.ObsCore Model.KeyGen Model.Deriv.
 Import ListNotations.
 Open Scope Z_scope.
 
